@@ -10,6 +10,7 @@ import (
 	"path/filepath"
 	"strconv"
 	"strings"
+	"sync"
 
 	"github.com/Dash-Industry-Forum/livesim2/pkg/chunkparser"
 	"github.com/Eyevinn/dash-mpd/mpd"
@@ -23,6 +24,7 @@ type Receiver struct {
 	ctx        context.Context
 	prefix     string
 	storage    string
+	mu         sync.RWMutex
 	streams    map[string]stream // mapped by stream.id()
 	channelMgr *ChannelMgr
 }
@@ -84,10 +86,10 @@ func (r *Receiver) SegmentHandlerFunc(w http.ResponseWriter, req *http.Request) 
 		discardUpload(w, req, http.StatusOK)
 		return
 	}
-	if _, ok := r.streams[stream.id()]; !ok {
+	if !r.hasStream(stream) {
 		simYield("receiver.stream-miss")
 		log.Info("New stream", "urlPath", path, "streamId", stream.id(), "mediaType", stream.mediaType)
-		r.streams[stream.id()] = stream
+		r.addStream(stream)
 		err := os.MkdirAll(stream.trDir, 0755)
 		if err != nil {
 			log.Error("Failed to create directory", "err", err)
@@ -374,6 +376,19 @@ func (r *Receiver) SegmentHandlerFunc(w http.ResponseWriter, req *http.Request) 
 		}
 	}
 	trD.nrSegsReceived++
+}
+
+func (r *Receiver) hasStream(s stream) bool {
+	r.mu.RLock()
+	_, ok := r.streams[s.id()]
+	r.mu.RUnlock()
+	return ok
+}
+
+func (r *Receiver) addStream(s stream) {
+	r.mu.Lock()
+	r.streams[s.id()] = s
+	r.mu.Unlock()
 }
 
 // DiscardUpload reads and discards the upload and returns the status code.
